@@ -422,3 +422,97 @@ def rule_width_units(cx, tier):
     r.analysed = {"width_or_precision_uses": n}
     r.floor("uses of min_width / precision in size computations", n, 1)
     return r
+
+
+# ---------------------------------------------------------------------------------------------
+# R-BOUNDS-ORDER (C06, C15): an unwrapped with_bounds(start..end) has start <= end by construction
+
+def rule_bounds_order(cx, tier):
+    r = RuleResult("R-BOUNDS-ORDER", "`with_bounds(start..end)` returns None for an inverted range, so where its result is "
+                                     "unwrapped the order of the bounds is visible in how they are computed: start is 0; or "
+                                     "end is `start + n`; or end is the length of the string that start was subtracted from; "
+                                     "or, for an alternative `len(input)` of end, a comparison `start <= len(input)` dominates")
+    from .narrow import FnBounds, _alternatives, _relational_sub, _short, strip_phi
+    from ..mir import op_base
+    F = cx.F
+    n = 0
+    for fn in F.fns.values():
+        if fn.derived or fn.crate.uname != "koto_runtime":
+            continue
+        du = cx.du(fn)
+        fb = None
+        for c in fn.calls():
+            if not c.is_("Option::unwrap", "Option::expect") or not c.args:
+                continue
+            l = op_base(c.args[0])
+            rr = du.root(l) if l is not None else None
+            if rr is not None and rr[0] == "field":
+                rr = rr[1]
+            if rr is None or rr[0] != "call" or (rr[1].pretty or rr[1].short or "").rsplit("::", 1)[-1] != "with_bounds":
+                continue
+            wb = rr[1]
+            if len(wb.args) < 2:
+                continue
+            d = du.single_def(op_base(wb.args[1])) if op_base(wb.args[1]) is not None else None
+            if d is None or d[2] != "assign" or d[3][0] != "agg" or len(d[3][2]) != 2:
+                continue
+            n += 1
+            r.instances += 1
+            r.nontrivial += 1
+            fb = fb or FnBounds(cx, fn)
+            s_e, e_e = fb.sym.expr(d[3][2][0]), fb.sym.expr(d[3][2][1])
+            ok, why = _ordered(fb, wb.bb, s_e, e_e)
+            r.sample({"fn": cx.label(fn), "line": c.line, "start": _short(s_e)[:50], "end": _short(e_e)[:50], "ordered": ok,
+                      "why": why})
+            if not ok:
+                r.add(Finding("R-BOUNDS-ORDER", cx.label(fn), f"{_short(s_e)[:40]}..{_short(e_e)[:40]}",
+                              f"`with_bounds({_short(s_e)[:60]}..{_short(e_e)[:60]}).unwrap()`: nothing in how the bounds are "
+                              f"computed makes start <= end ({why}); an inverted range yields None and the unwrap panics",
+                              fn.file, c.line))
+    r.analysed = {"unwrapped_with_bounds_sites": n}
+    r.floor("unwrapped with_bounds sites in koto_runtime", n, 6)
+    return r
+
+
+def _ordered(fb, site_bb, s_e, e_e):
+    from .narrow import _alternatives, strip_phi, edge_side, _short
+
+    def unc(x):
+        while x[0] == "cast":
+            x = x[1]
+        return x
+    s_e, e_e = unc(s_e), unc(e_e)
+    if s_e[0] == "K" and s_e[1] == 0:
+        return True, "start is 0"
+    ks = strip_phi(s_e)
+    bad = []
+    for alt in _alternatives(e_e):
+        alt = unc(alt)
+        if alt[0] == "add" and (strip_phi(unc(alt[1])) == ks or strip_phi(unc(alt[2])) == ks):
+            continue                                   # end = start + n
+        if alt[0] == "sub" and alt[1][0] == "add" and (strip_phi(unc(alt[1][1])) == ks or strip_phi(unc(alt[1][2])) == ks) \
+                and alt[2][0] == "K" and alt[2][1] <= 1:
+            # start + n - 1 with n >= 1 (a found '\\r' before the '\\n')
+            continue
+        if alt[0] == "L" and alt[1].startswith("len("):
+            # start = len(S) - x
+            if s_e[0] == "sub" and unc(s_e[1]) == alt:
+                continue
+            # a dominating comparison start <= len(S) / start < len(S)
+            ok = False
+            for (gb, dest, opn, le, re_, cty) in fb.gs:
+                if not (gb == site_bb or fb.cfg.dominates(gb, site_bb)):
+                    continue
+                side = edge_side(fb.cx, fb.fn, fb.cfg, gb, dest, site_bb)
+                l, rr = strip_phi(unc(le)), strip_phi(unc(re_))
+                op = opn.lower()
+                if (l, rr) == (ks, strip_phi(alt)) and ((op in ("le", "lt") and side == "true") or (op in ("gt", "ge") and side == "false")):
+                    ok = True
+                if (l, rr) == (strip_phi(alt), ks) and ((op in ("ge", "gt") and side == "true") or (op in ("lt", "le") and side == "false")):
+                    ok = True
+            if ok:
+                continue
+        bad.append(_short(alt)[:50])
+    if bad:
+        return False, "end can be " + " / ".join(bad) + f", unrelated to start = {_short(s_e)[:50]}"
+    return True, "every alternative of end is start + n, or a length that start does not exceed"
